@@ -23,7 +23,7 @@ def isApp (m : Msg) : Bool := !sessionTypes.contains m.mtype
 
 /-- finishing tactic for the formulas `simp only [wp]` produces -/
 macro "wp_finish" : tactic =>
-  `(tactic| (repeat' (first | intro _ | apply And.intro)) <;> simp_all <;> try omega)
+  `(tactic| ((repeat' (first | intro _ | apply And.intro)); all_goals (try simp_all); all_goals (try omega)))
 
 /-- the wp simp set -/
 macro "wp_simp" : tactic =>
@@ -39,8 +39,7 @@ theorem processSeqreset_spec (m : Msg) (c : Conn) :
           (isGapFill m = true → n = c.sess.nextIn ∧ n < nw) ∧ c'.sess.nextIn = nw) ∧
       (r = .ok false → c' = c ∧ isGapFill m = true ∧
           ∃ n, seqOf m = some n ∧ (n = c.sess.nextIn → ∃ nw, newSeqOf m = some nw ∧ nw ≤ n)) ∧
-      (∀ ex, r = .error ex → c'.sess.nextIn = c.sess.nextIn ∨
-          (isGapFill m = false ∧ seqOf m = some c'.sess.nextIn ∧ ∀ nw, newSeqOf m = some nw → nw ≤ 0))) := by
+      (∀ ex, r = .error ex → c'.sess.nextIn = c.sess.nextIn)) := by
   unfold processSeqreset setSeqNum
   wp_simp
   simp [seqOf, newSeqOf, isGapFill, mSequenceReset]
